@@ -35,12 +35,16 @@ LEVEL_TEXT = (
     "positive number and the previous L otherwise; adaptive BB follows the documented kappa rule on the most recent usable "
     "ratios; every policy keeps L finite and > 0 along every history; the line searches return L0*gamma_u^k for the least "
     "accepted k < maxiter (last value tried otherwise) together with the candidate computed with that L; which point each "
-    "policy is evaluated at in accelerated PGM. The model is tied to the code on every update() call of real solver runs."
+    "policy is evaluated at in accelerated PGM; on complex data the BB ratio is sum|dg|^2 / Re sum conj(dx) dg; the adaptive-BB memory "
+    "after any call history of the policy object; the robust search's auxiliary sequences satisfy L t^2 = T_k + t along every run; "
+    "under the quadratic upper bound with constant Lf every L >= Lf is accepted, so the line search returns at most max(L, gamma_u Lf). "
+    "The model is tied to the code on every update() call of real solver runs."
 )
 LEVEL_NOTE = (
     "Trusted: Lean kernel + Mathlib; real-number idealisation (rounding/overflow not modelled; division by exact zero, "
     "inf/NaN propagation and NaN-false comparisons are); jax.grad, jit, prox of the regularisers as contracts; the tie is "
-    "differential testing on quadratics of size <= 4 (real and complex), <= 10 steps per run."
+    "differential testing on quadratics of size <= 4 (real and complex), <= 10 steps per run, losses scaled by 2^k (|k| <= 40, "
+    "relative comparison), and exhaustively every acceptance pattern of both line-search classes for budgets <= 5 on a stub solver."
 )
 PROP_MODULES = ["Scico.Props.C16"]
 EXTRA_TARGETS = ["Drv.StepSize"]
@@ -50,8 +54,9 @@ RULE = (
     "case = one step_size.update() call inside a real PGM/AcceleratedPGM run on f(x)=1/2 x'Qx+b'x+c (Q diagonal/dense, "
     "definite/indefinite/zero, real or Hermitian complex, dyadic entries), g in {0, w*l1, nonneg, w*sql2}, policy and "
     "parameters random (kappa, gamma_u, gamma_d, maxiter incl. 0); crafted stream: orthogonal differences, stationary "
-    "start, negative curvature, exhausted budget, exact ties, complex. Non-trivial: policy is not the base class and the "
-    "call is not the first (storing) call of a BB policy; distinct by (problem digest, step)."
+    "start, negative curvature, exhausted budget, exact ties, complex; scale stream: the same problems times 2^k; stub streams: BB "
+    "histories with 0/inf/NaN/overflow, line-search objects under every acceptance pattern (maxiter 0..5). Non-trivial: policy is not "
+    "the base class and the call is not the first (storing) call of a BB policy; distinct by (problem digest, step)."
 )
 ASSUMPTIONS = [
     "jax.grad of the quadratic loss returns Qx+b (checked by the run tie on every trajectory)",
@@ -571,6 +576,114 @@ def _oracle_stub_next(case):
     return None
 
 
+# --------------------------------------------------------------------------
+# line-search objects driven directly (stub solver): every acceptance pattern, exhaustively
+
+
+class _StubG:
+    def prox(self, v, lam):
+        return v
+
+
+class _StubSearchPGM:
+    """stub solver for the two line-search classes: f = 0, grad = 0, prox = id, and the outcome of the acceptance test of
+    trial i is prescribed (f_quad_approx returns +1: accepted, -1: rejected); records every L a candidate is computed for"""
+
+    def __init__(self, L, accepts, x):
+        self.L = L
+        self.accepts = accepts
+        self.tried = []
+        self.g = _StubG()
+        self.x = x
+        self.f = self
+
+    def grad(self, v):
+        return 0.0 * v
+
+    def __call__(self, z):
+        return 0.0
+
+    def f_quad_approx(self, z, y, L):
+        i = len(self.tried)
+        self.tried.append(float(L))
+        return 1.0 if (i < len(self.accepts) and self.accepts[i]) else -1.0
+
+    def x_step(self, y, L):
+        return y
+
+
+def _stub_search_call(case):
+    import scico.numpy as snp
+    from scico.optimize.pgm import LineSearchStepSize, RobustLineSearchStepSize
+
+    pgm = _StubSearchPGM(case["L"], list(case["accepts"]), snp.array(np.array([1.0, -2.0])))
+    if case["kind"] == "ls":
+        pol = LineSearchStepSize(gamma_u=case["gu"], maxiter=case["maxiter"])
+    else:
+        pol = RobustLineSearchStepSize(gamma_d=case["gd"], gamma_u=case["gu"], maxiter=case["maxiter"])
+    pol.internal_init(pgm)
+    try:
+        L = float(pol.update(pgm.x))
+        return {"L": L, "tried": pgm.tried, "raised": None, "Tk": float(pol.Tk) if case["kind"] == "rls" else None}
+    except Exception as e:  # noqa: BLE001
+        return {"L": None, "tried": pgm.tried, "raised": common.err_kind(e), "raised_type": type(e).__name__}
+
+
+def _oracle_stub_search(case):
+    """the property on the implementation for one prescribed acceptance pattern: L0*gamma_u^k for the least accepted
+    k < maxiter, the last value tried otherwise, exactly k+1 candidates evaluated, geometric trial values"""
+    r = _stub_search_call(case)
+    acc, mx, gu = case["accepts"], case["maxiter"], case["gu"]
+    start = case["L"] if case["kind"] == "ls" else case["L"] * case["gd"]
+    if mx == 0:
+        if case["kind"] == "ls":
+            return None if (r["L"] == case["L"] and not r["tried"]) else {"why": "maxiter = 0: L must be returned unchanged without a trial", **r}
+        return None  # robust search with maxiter = 0 raises (modelled as it is)
+    if r["raised"]:
+        return {"why": "line search raised", **r, "case": case}
+    k = next((i for i, a in enumerate(acc) if a), mx - 1)
+    want = [start * gu ** j for j in range(k + 1)]
+    if r["tried"] != want or r["L"] != want[-1]:
+        return {"why": "line search does not return the first accepted value of L0*gamma_u^k (last tried if none), after k+1 trials",
+                "accept_pattern": acc, "maxiter": mx, "tried": r["tried"], "returned": r["L"], "expected_trials": want}
+    if case["kind"] == "rls" and not _rel(r["Tk"], 1.0 / r["L"], 4, 1e-15):
+        return {"why": "robust search: T_1 != t(L returned) = 1/L", "Tk": r["Tk"], "L": r["L"]}
+    return None
+
+
+def check_stub_search(ctx, model):
+    """exhaustive small scope: both line-search classes on a stub solver for every acceptance pattern of every budget
+    0..5 (2^0+…+2^5 = 63 patterns each) against the Lean `searchLoop`, two parameter sets"""
+    import itertools
+
+    n = 0
+    for (L0, gu, gd) in ((3.0, 2.0, 0.5), (0.75, 1.5, 0.25)):
+        for maxiter in range(0, 6):
+            for accepts in itertools.product([False, True], repeat=maxiter):
+                for kind in ("ls", "rls"):
+                    case = {"what": "stub-search", "kind": kind, "L": L0, "gu": gu, "gd": gd, "maxiter": maxiter, "accepts": list(accepts)}
+                    r = _stub_search_call(case)
+                    n += 1
+                    ctx.case({"what": "stub-search", "kind": kind, "maxiter": maxiter, "accepts": list(accepts)},
+                             None if maxiter == 0 else f"stubsearch:{kind}:{L0}:{maxiter}:{accepts}")
+                    ctx.count(f"stub-search:{kind}")
+                    start = L0 if kind == "ls" else L0 * gd
+                    tests = [[f2b(0.0), f2b(1.0 if a else -1.0)] for a in accepts]
+                    try:
+                        out = model.call("search", gu=f2b(gu), maxiter=int(maxiter), L=f2b(start), tests=tests)
+                        m = {"L": b2f(out["L"]), "tried": out["tried"], "raised": None}
+                    except ModelErr as e:
+                        m = {"L": L0 if kind == "ls" else None, "tried": 0, "raised": None if kind == "ls" else e.kind}
+                    same = (r["raised"] == m["raised"]) and (r["raised"] is not None or (r["L"] == m["L"] and len(r["tried"]) == m["tried"]))
+                    if not same:
+                        ctx.disagree("stepsize.stub.search", case, r, m, oracle=_oracle_stub_search)
+                        continue
+                    bad = _oracle_stub_search(case)
+                    if bad is not None:
+                        ctx.disagree("stepsize.stub.search.property", case, bad, None, oracle=_oracle_stub_search)
+    ctx.extra["exhaustive"] = f"line-search control flow: all acceptance patterns for maxiter <= 5, both classes, 2 parameter sets ({n} calls)"
+
+
 def _corpus():
     d = common.CORPUS_DIR / PROP
     out = []
@@ -590,6 +703,7 @@ def correspond(ctx, model):
         ctx.count("crafted")
         check_case(ctx, model, case, origin="crafted")
     check_stub_histories(ctx, model, ctx.n(60, 600))
+    check_stub_search(ctx, model)
     n = ctx.n(220, 1500)
     for _ in range(n):
         pol = G.gen_policy(ctx.rng)
@@ -676,6 +790,12 @@ def search(ctx, model, why):
 def replay(ctx, model, case):
     common.setup_scico()
     c = case.get("case", case)
+    if c.get("what") == "stub-search":
+        r = _oracle_stub_search(c)
+        print("replay:", "property FAILS on implementation:" if r else "no failure at this input", r)
+        if r:
+            ctx.violation({"kind": "failing-input", "case": c, "failing": r}, True, "replay")
+        return
     c = {k: v for k, v in c.items() if k != "at_step"}
     r = oracle_scale(c) if c.get("scale_base") else oracle(c)
     c = {k: v for k, v in c.items() if k != "scale_base"}
